@@ -96,6 +96,8 @@ def rhs(m, s, d):
             nxt = nxt + 0.35 * s["DT"] * s["pcq"]
         if d["vc"] == "both":
             nxt = nxt + 0.25 * s["DT"] * s["vcq"]
+        if d["vc"] == "two":
+            nxt = nxt + 0.3 * s["DT"] * s["vc2"] * X
         if d["vg"]:
             nxt = nxt + 0.5 * s["DT"] * s["vg"] * m.sin(X)
         if d["vc"]:
@@ -135,6 +137,8 @@ def rhs(m, s, d):
         dx = dx + 0.35 * s["pcq"]
     if d["vc"] == "both":
         dx = dx + 0.25 * s["vcq"]
+    if d["vc"] == "two":
+        dx = dx + 0.3 * s["vc2"] * m.cos(X)
     if d["vg"]:
         dx = dx + 0.5 * s["vg"] * m.sin(X)
     if d["vc"]:
@@ -242,6 +246,16 @@ def c_off2(m, pt, d):
 
 def c_offm2(m, pt, d):
     return ("le", _x0(m, pt) - pt.offset(_x0, -2), 0.6)
+
+
+def c_x_le_xv(m, pt, d):
+    # unknowns on BOTH sides of the inequality (needs a global variable and a second state component)
+    return ("le", _x0(m, pt), 0.5 * m.el(pt.s["x"], 1) + pt.s["vg"] + 1.4)
+
+
+def c_pcq_le(m, pt, d):
+    # an include_last per-interval parameter next to a plain one (pc == 'both')
+    return ("le", _x0(m, pt), pt.s["pcq"] + 0.5 * pt.s["pc"] + 1.0)
 
 
 def c_xq_le(m, pt, d):
@@ -685,6 +699,8 @@ def declare(d, ocp=None, stage=None, solver=True, method=True, with_cons=True, w
         s["vc"] = st.variable(grid="control", include_last=(d["vc"] == "control+"), scale=sc.get("vc", 1))
     if d["vc"] == "both":
         s["vcq"] = st.variable(grid="control", include_last=True, scale=sc.get("vc", 1))
+    if d["vc"] == "two":
+        s["vc2"] = st.variable(grid="control", scale=sc.get("vc", 1))      # a second per-interval variable of the SAME kind
     if hz == "Tvar":
         s["Tv"] = st.variable()
         st.set_T(s["Tv"])
@@ -711,7 +727,7 @@ def declare(d, ocp=None, stage=None, solver=True, method=True, with_cons=True, w
     if lhs is not None:
         setter(lhs, rhs_)
     else:
-        for name in names:
+        for name in (list(reversed(names)) if d.get("der_order") == "reverse" else names):
             if d["intg"] == "set_next":
                 st.set_next(s[name], f[name])
             else:
